@@ -13,6 +13,7 @@ import Wax.RuleS
 import Wax.Partition
 import Wax.Proofs.Exhaustive
 import Wax.Cmd.Frag2
+import Wax.Cmd.Build
 import Wax.Unicode
 import Wax.SemSpec
 import Wax.RuleSpec
@@ -41,15 +42,24 @@ def anyCmd (cmd : String) (hs : List String) : String :=
   match anyTree (cmd == "AN" || cmd == "FAN") hs with
   | none => "err"
   | some t =>
-    if cmd == "A" || cmd == "AN" then s!"ok - | {hexStr (compilePattern t).toList}"
+    if cmd == "A" || cmd == "AN" then
+      (if compilePanics t || nestPanics t then "panic" else s!"ok - | {hexStr (compilePattern t).toList}")
     else cmdF t
 
 def handle (line : String) : String :=
   match line.trimAscii.toString.splitOn " " with
-  | ["B", h] =>
+  | ["B", h] => cmdB h
+  | ["B0", h] =>
     match parse (unhex h) with
     | .err locs => s!"err parse {locs}"
     | .ok t => s!"ok {t.dump} | {hexStr (compilePattern t).toList}"
+  | ["BR", h] =>
+    -- the structural verdict next to the one of the checker with error identity
+    match parse (unhex h) with
+    | .err _ => "err"
+    | .ok t =>
+      let c := match check t with | .error _ => "panic" | .ok none => "accept" | .ok (some (k, _)) => if k == RuleErr.oversized then "oversized" else "reject"
+      s!"{if checkS t then "accept" else "reject"} {c}"
   | ["S", h] =>
     match parse (unhex h) with
     | .err _ => "err"
